@@ -60,7 +60,13 @@ class E2Env:
         self.classify = make_classifier()
         self._ref_cache: dict = {}
 
-    def new_executor(self, max_timeout: int, per_stmt: int):
+    def new_executor(self, max_timeout: int, per_stmt: int, probe: bool = False):
+        if probe:
+            return make_probe_executor(self.ex.TestCaseExecutor)(
+                self.props,
+                maximum_test_execution_timeout=max_timeout,
+                test_execution_time_per_statement=per_stmt,
+            )
         return self.ex.TestCaseExecutor(
             self.props,
             maximum_test_execution_timeout=max_timeout,
@@ -103,6 +109,30 @@ class E2Env:
                 sch.shutdown()
             self._ref_cache[key] = ref
         return ref
+
+
+_probe_cls = None
+
+
+def make_probe_executor(base):
+    """Harness subclass: samples tracer.is_disabled() around every statement."""
+    global _probe_cls
+    if _probe_cls is None:
+
+        class ProbeExecutor(base):
+            def __init__(self, *a, **k):
+                super().__init__(*a, **k)
+                self.samples = []
+
+            def _exec_statement(self, node, namespace):
+                tr = self._subject_properties.instrumentation_tracer
+                before = tr.is_disabled()
+                exc = super()._exec_statement(node, namespace)
+                self.samples.append((before, tr.is_disabled(), type(exc).__name__ if exc is not None else None))
+                return exc
+
+        _probe_cls = ProbeExecutor
+    return _probe_cls
 
 
 def result_signature(res) -> dict:
